@@ -30,24 +30,41 @@ enum VOp {
     V_ASSIGN_SCALAR = 0, V_ASSIGN_STRING, V_ASSIGN_CONTAINER, V_ASSIGN_VALUE_COPY, V_ASSIGN_VALUE_MOVE, V_APPEND_SCALAR,
     V_APPEND_STRING, V_APPEND_CONTAINER, V_APPEND_VALUE_COPY, V_APPEND_VALUE_MOVE, V_SUBSCRIPT_KEY, V_SUBSCRIPT_INDEX,
     V_GET_KEY, V_INSERT, V_MERGE_COPY, V_MERGE_MOVE, V_REMOVE_KEY, V_REMOVE_INDEX, V_RESET, V_COMPRESS, V_ROOT_COPY_CTOR,
-    V_ROOT_MOVE_CTOR, V_ROOT_CTOR, V_SET_POINTER, V_ADD_POINTER, V_ASSIGN_TYPE, V_SELF_ASSIGN, V_CHECKPOINT, V_COUNT
+    V_ROOT_MOVE_CTOR, V_ROOT_CTOR, V_SET_POINTER, V_ADD_POINTER, V_ASSIGN_TYPE, V_SELF_ASSIGN, V_ASSIGN_OWN_TEXT, V_CHECKPOINT, V_COUNT
 };
 static const char *v_op_name[] = {"assign-scalar", "assign-string", "assign-container", "assign-value-copy",
                                   "assign-value-move", "append-scalar", "append-string", "append-container",
                                   "append-value-copy", "append-value-move", "subscript-key", "subscript-index",
                                   "get-key", "insert", "merge-copy", "merge-move", "remove-key", "remove-index", "reset",
                                   "compress", "root-copy-ctor", "root-move-ctor", "root-ctor", "set-pointer",
-                                  "add-pointer", "assign-type", "self-assign", "checkpoint"};
+                                  "add-pointer", "assign-type", "self-assign", "assign-own-text", "checkpoint"};
 
 static const double nice_doubles[] = {0.0, -0.0, 1.0, -1.0, 0.5, -2.25, 1.0 / 3.0, 0.1, 0.3, 123456.789, 1e15, 9007199254740993.0,
                                       1e300, -1e-300, DBL_MAX, DBL_MIN, 4.9406564584124654e-324, 3.141592653589793, 2.5e-5, 1e21, 1e-7};
+
+// doubles by bit pattern: boundary mantissas (all ones, all zero, single bits, alternating) at many binades
+static double pattern_double(uint64_t tok) {
+    static const uint64_t mant[] = {0xFFFFFFFFFFFFFULL, 0x0ULL, 0x1ULL, 0x8000000000000ULL, 0x5555555555555ULL, 0xAAAAAAAAAAAAAULL,
+                                    0xFFFFFFFFFFFFEULL, 0x7FFFFFFFFFFFFULL, 0x0000000000FFFULL, 0xFFFFF00000000ULL};
+    uint64_t m = mant[tok % 10];
+    if ((tok / 10) % 4 == 3) m = (tok * 0x9E3779B97F4A7C15ULL) & 0xFFFFFFFFFFFFFULL;
+    int64_t  e    = (int64_t)((tok / 40) % 141) - 70; // 2^-70 .. 2^70
+    uint64_t bits = ((tok / 7) & 1 ? 0x8000000000000000ULL : 0) | ((uint64_t)(1023 + e) << 52) | m;
+    double   d;
+    memcpy(&d, &bits, 8);
+    return d;
+}
+static double some_double(uint64_t tok) {
+    if (tok & 1) return pattern_double(tok >> 1);
+    return nice_doubles[(tok >> 1) % (sizeof(nice_doubles) / sizeof(double))];
+}
 
 // a deterministic small tree from a token (payload of container / value operations)
 static Node gen_node(uint64_t tok, int depth, const U32 &s) {
     switch (tok % 9) {
         case 0: return Node::mku(tok);
         case 1: return Node::mki(-(int64_t)(tok & 0xFFFFFF));
-        case 2: return Node::mkd(nice_doubles[(tok / 9) % (sizeof(nice_doubles) / sizeof(double))]);
+        case 2: return Node::mkd(some_double(tok / 9));
         case 3: return Node::mks(s);
         case 4: return Node::mk(Node::True);
         case 5: return Node::mk(Node::Null);
@@ -643,7 +660,7 @@ struct ValW {
                     case 0: *v = (SizeT64)tok; *n = Node::mku(tok); break;
                     case 1: *v = (SizeT64I)(-(int64_t)(tok >> 1)); *n = Node::mki(-(int64_t)(tok >> 1)); break;
                     case 2: {
-                        double d = nice_doubles[tok % (sizeof(nice_doubles) / sizeof(double))];
+                        double d = some_double(tok);
                         *v       = d;
                         *n       = Node::mkd(d);
                         break;
@@ -744,13 +761,59 @@ struct ValW {
                 *v = static_cast<const VT &>(*v);
                 break;
             }
+            case V_ASSIGN_OWN_TEXT: {
+                // the new content is text the target itself owns: a sub-range of its own string, or a string somewhere
+                // beneath it. Every string-taking assignment has to read it before releasing the old content.
+                const StrT *own = nullptr;
+                U32         text;
+                if (n->kind == Node::String && !n->str.empty()) {
+                    LibCall lc;
+                    own  = v->GetString();
+                    text = n->str;
+                } else if (n->kind == Node::Array || n->kind == Node::Object) {
+                    size_t cnt = n->kind == Node::Array ? n->items.size() : n->members.size();
+                    for (size_t k = 0; k < cnt && own == nullptr; k++) {
+                        const Node &c = n->kind == Node::Array ? n->items[(k + tok) % cnt] : n->members[(k + tok) % cnt].second;
+                        if (c.kind != Node::String || c.str.empty()) continue;
+                        LibCall lc;
+                        const VT *cv = n->kind == Node::Array ? (v->GetArray()->First() + ((k + tok) % cnt))
+                                                              : v->GetObject()->GetValue((SizeT)0) /*placeholder*/;
+                        if (n->kind == Node::Object) {
+                            ArenaText<C> kt(n->members[(k + tok) % cnt].first);
+                            cv = v->GetObject()->GetValue((const C *)kt.ptr, (SizeT)kt.len);
+                        }
+                        if (cv != nullptr) {
+                            own  = cv->GetString();
+                            text = c.str;
+                        }
+                    }
+                }
+                if (own == nullptr) return;
+                size_t off = (size_t)((tok / 7) % text.size());
+                size_t cnt = 1 + (size_t)((tok / 31) % (text.size() - off));
+                qsim::probe("value.assign-own-text");
+                LibCall lc;
+                switch (var % 5) {
+                    case 0: *v = SVT{own->First() + off, (SizeT)cnt}; *n = Node::mks(text.substr(off, cnt)); break;
+                    case 1: {
+                        U32 rest = text.substr(off);
+                        *v       = (const C *)(own->First() + off); // NUL-terminated tail of the owned string
+                        *n       = Node::mks(rest.substr(0, rest.find(U'\0')));
+                        break;
+                    }
+                    case 2: *v = static_cast<const StrT &>(*own); *n = Node::mks(text); break;
+                    case 3: *v = own; *n = Node::mks(text); break;
+                    default: *v = SVT{own->First(), own->Length()}; *n = Node::mks(text); break;
+                }
+                break;
+            }
             case V_APPEND_SCALAR: {
                 LibCall lc;
                 switch (var % 8) {
                     case 0: *v += (SizeT64)tok; m_append(*n, Node::mku(tok)); break;
                     case 1: *v += (SizeT64I)(-(int64_t)(tok >> 1)); m_append(*n, Node::mki(-(int64_t)(tok >> 1))); break;
                     case 2: {
-                        double d = nice_doubles[tok % (sizeof(nice_doubles) / sizeof(double))];
+                        double d = some_double(tok);
                         *v += d;
                         m_append(*n, Node::mkd(d));
                         break;
